@@ -81,6 +81,12 @@ class Prop(object):
     def cases(self, ctx, rng, n):
         for _ in range(n):
             yield gen_case(rng) + (["a", "b", "c"],)
+        # exhaustive small family: all ordered pairs from a pool x all required lists of length <= 2
+        pool = ["a", "a b", ". .", ". . .", "a . *", ". * b", "( a | b ) *", "a b . *", "a ? b", ". a", "b . *", "a b $"]
+        for p1 in pool:
+            for p2 in pool:
+                for req in ref.words(["a", "b"], 2):
+                    yield (req, [p1, p2], [ref.parse(p1), ref.parse(p2)], 2, [], ["a", "b", "c"])
         # real combinations
         names = parse_code_names()
         test_patterns = ["sequence_header .* end_of_sequence", "(. padding_data)+ end_of_sequence",
